@@ -50,7 +50,11 @@ class DD(DirectedEdge):
 
 
 class UU(UnDirectedEdge):
-    """subclass of UnDirectedEdge"""
+    """subclass of UnDirectedEdge whose constructor REQUIRES its two ends (code that builds links for the caller
+    must hand them to the constructor, as documented: `lnktype(v1, v2)`)"""
+
+    def __init__(self, v1, v2, **kwargs):
+        super().__init__(v1, v2, **kwargs)
 
 
 class DU(DirectedEdge, UnDirectedEdge):
